@@ -434,6 +434,9 @@ func (m *lmodel) promiseFinally(p *mprom, onFinally mfunc) *mprom {
 		if thrown {
 			return result, true
 		}
+		if result.k == mvProm || result.k == mvThen {
+			m.count("finally-handler-returned-promise-or-thenable")
+		}
 		promise := m.promiseResolve(result)
 		valueThunk := func(mval) (mval, bool) { return value, false }
 		return mval{k: mvProm, p: m.promiseThen(promise, valueThunk, nil)}, false
@@ -443,6 +446,7 @@ func (m *lmodel) promiseFinally(p *mprom, onFinally mfunc) *mprom {
 		if thrown {
 			return result, true
 		}
+		m.count("finally-on-rejected-promise")
 		promise := m.promiseResolve(result)
 		thrower := func(mval) (mval, bool) { return reason, true }
 		return mval{k: mvProm, p: m.promiseThen(promise, thrower, nil)}, false
@@ -459,6 +463,7 @@ func (m *lmodel) combinator(kind int, items []mval) *mprom {
 	finish := func() {
 		out := append([]mval(nil), values...)
 		if kind == 3 {
+			m.count("any-rejected-with-aggregate-error")
 			c.reject(mval{k: mvAgg, arr: out})
 		} else {
 			c.resolve(mval{k: mvArr, arr: out})
@@ -568,6 +573,9 @@ func (m *lmodel) asyncRun(a *lmact) {
 		case asReturn:
 			m.ev("B")
 			v := m.evalVal(st.val)
+			if v.k == mvProm {
+				m.count("async-return-promise")
+			}
 			a.pc = len(a.fn.body)
 			a.cap.resolve(v)
 			return
@@ -600,6 +608,7 @@ func (m *lmodel) await(a *lmact, v mval) {
 		m.asyncDepth = a.depth + 1
 		st := &a.fn.body[a.pc]
 		if st.kind == asTryAwait {
+			m.count("await-rejection-caught")
 			m.evL(st.idc, x)
 			a.pc++
 			m.asyncRun(a)
@@ -838,6 +847,7 @@ func (m *lmodel) execOp(o *lop) {
 		hit := 0
 		if s := m.tkeys[o.key]; s >= 0 && !m.timers[s].fired && !m.timers[s].cancelled {
 			m.timers[s].cancelled = true
+			m.count("timer-cancelled")
 			hit = 1
 		}
 		m.ev(fmt.Sprintf("CT%d:%d", o.key, hit))
